@@ -26,6 +26,7 @@ from pyttb.gcp.handles import Objectives
 from pyttb.pyttb_utils import tt_sub2ind
 
 from harness import gen
+from harness import lib
 from harness.lib import Family, Verdict, call, deep_eq, drive, frac, jval, strip_exc
 from harness.lib import sparse_j as lib_sparse_j
 
@@ -188,7 +189,7 @@ def patched_rng(rng):
     saved = (np.random.uniform, np.random.choice, np.random.poisson)
     np.random.uniform, np.random.choice, np.random.poisson = rng.uniform, rng.choice, rng.poisson
     try:
-        with quiet():
+        with quiet(), lib.unit_spellings(rng.uniform):
             yield rng
     finally:
         np.random.uniform, np.random.choice, np.random.poisson = saved
@@ -2455,7 +2456,7 @@ class GcpOptInits(Family):
         state = np.random.get_state()
         np.random.seed(seed)
         try:
-            with patched(np.random, "uniform", rec), quiet():
+            with patched(np.random, "uniform", rec), lib.unit_spellings(rec), quiet():
                 m, m0, info = ttb.gcp_opt(data, c["rank"], Objectives[INIT_OBJECTIVES[c["objective"]]], opt, init=init,
                                           printitn=0)
         finally:
